@@ -86,12 +86,16 @@ def copy_note_across(rng, files):
     if len(files) < 2 or rng.random() > 0.35:
         return files
     a, b = rng.sample(sorted(files), 2)
-    cands = [l for l in files[a].split("\n") if re.match(r"^[-ox~<>] (P\d )?(\d{6} )?\d{6}#\w\w ", l)]
+    al = files[a].split("\n")
+    cands = [i for i, l in enumerate(al) if re.match(r"^[-ox~<>] (P\d )?(\d{6} )?\d{6}#\w\w ", l)]
     if not cands:
         return files
     out = dict(files)
-    # (half of the copies are exact: two indexed notes with the same ZID and the same text are still two notes)
-    out[b] = files[b].rstrip("\n") + "\n\n" + rng.choice(cands) + (" (copied)" if rng.random() < 0.5 else "") + "\n"
+    i = rng.choice(cands)
+    single = i + 1 >= len(al) or not al[i + 1].startswith(" ")
+    # (half of the copies of single-line notes are exact: two indexed notes with the same ZID and the same text are still two
+    # notes; the first line of a multi-line note is always marked, so that no two different notes render alike)
+    out[b] = files[b].rstrip("\n") + "\n\n" + al[i] + ("" if single and rng.random() < 0.5 else " (copied)") + "\n"
     return out
 
 
